@@ -5,6 +5,8 @@ pub mod tiny;
 pub mod policy;
 pub mod cache;
 pub mod live;
+pub mod flavour;
+pub mod keys;
 
 use std::io::Write;
 
